@@ -12,4 +12,5 @@ def run(rep, ctx):
     reuse.run_reset(rep, g)
     reuse.run_buffers(rep, g)
     reuse.run_no_hidden_state(rep, g)
-    run_witnesses(rep, ['OneTablePerContext', 'OneNodePerTree'])
+    if not getattr(ctx, 'variant', None):
+        run_witnesses(rep, ['OneTablePerContext', 'OneNodePerTree'])
